@@ -352,6 +352,19 @@ def gen_mibcopy(rng, tier):
         scn['index_dir'] = index_dir
     if rng.random() < 0.2:
         scn['normalised_mtime'] = True        # every file stamped 1980-01-01 (reproducible archives, image layers)
+        if rng.random() < 0.6:
+            # ... and the destination already holds a copy of a module that a source offers under the same file name,
+            # byte for byte as long, in another revision
+            cands = [f_ for f_ in files if f_.get('module') and not f_.get('broken') and not f_.get('garbage') and f_.get('rev') and not f_.get('tail')
+                     and os.path.dirname(f_['path']) != (index_dir if index_dir is not None else '\0')]
+            if cands:
+                f_ = rng.choice(cands)
+                taken = set(x['path'] for x in files)
+                newp = (os.path.dirname(f_['path']) + '/' if os.path.dirname(f_['path']) else '') + f_['module']
+                if newp == f_['path'] or newp not in taken:
+                    f_['path'] = newp
+                    f_['tag'] = 'c7'
+                    dest[f_['module']] = {'rev': rng.choice([r for r in REVS if r != f_['rev']]), 'tag': 'd0'}
     return scn
 
 
